@@ -104,7 +104,16 @@ def sv_method(obj, name):
 @model(builtins.isinstance)
 def m_isinstance(it, v, t):
     ts = t if isinstance(t, tuple) else (t,)
-    return any(_isinstance1(it, v, k) for k in ts)
+    sym = []
+    for k in ts:
+        r = _isinstance1(it, v, k)
+        if isinstance(r, SV):
+            sym.append(r.e)
+        elif r:
+            return True
+    if sym:
+        return SV(z3.Or(*sym) if len(sym) > 1 else sym[0], "bool")
+    return False
 
 
 def _isinstance1(it, v, k):
